@@ -7,6 +7,9 @@ import os
 from runners.common import replay_with
 
 TRUSTED = [
+    "in-Coq tie: bridge/modelgen.ser_struct serialises model.expression; bridge/symgen_C02.py + corr_C02.extract produce the formula data; "
+    "AcEq.aceq (proved sound) decides equality modulo AC/flattening/like terms/|z|=|-z|; reactions affected by the known finding on identical "
+    "particles are excluded from the tie and covered by the correspondence",
     "correspondence (differential): bridge/corr_C02.py extracts spins/projections/LS/child order/symmetrisation from the qrules "
     "transitions with its own code; symbol NAMES (angles, coefficients, couplings) and lineshape expressions are taken from ampform's "
     "naming functions / the assigned builders (C03, C07, C13 are about those); bridge/coqio.py parses vm_compute output; trees are rebuilt "
@@ -21,7 +24,22 @@ NSHARDS = 8
 def run(chk):
     n = 40 if chk.tier == "quick" else 400
     prefix = os.path.join(chk.build, "Cases_C02")
-    ok = chk.compile_chain([], ["C02_lemmas.v"], "C02.v", timeout=900)
+    rc, tdoc, out = chk.bridge_json("symgen_C02.py", [os.path.join(chk.build, "Tie_C02"), str(NSHARDS), chk.tier], timeout=2400)
+    ok = False
+    if rc != 0 or tdoc is None:
+        chk.obligations.extend(chk.theorem_names(os.path.join("coq", "props", "C02.v")))
+        chk.broken.append({"file": "symgen_C02.py", "item": "model regeneration (in-Coq tie)", "coqc_output": out[-1500:]})
+    else:
+        chk.cov["tie_cases_in_coq"] = len(tdoc["cases"])
+        chk.cov["tie_skipped_known_finding"] = tdoc["skipped_known_finding"]
+        with concurrent.futures.ThreadPoolExecutor(NSHARDS) as ex:
+            res = list(ex.map(lambda k: chk.coqc(f"Tie_C02_{k}.v", timeout=1500), range(NSHARDS)))
+        bad = [(k, o) for k, (okk, o) in enumerate(res) if not okk]
+        if bad:
+            chk.obligations.extend(chk.theorem_names(os.path.join("coq", "props", "C02.v")))
+            chk.broken.append({"file": f"Tie_C02_{bad[0][0]}.v", "item": "generated tie case does not compile", "coqc_output": bad[0][1][-1500:]})
+        else:
+            ok = chk.compile_chain(["Tie_C02.v"], ["C02_lemmas.v", "C02_tie_lemmas.v"], "C02.v", timeout=1500)
     rc, doc, out = chk.bridge_json("corr_C02.py", ["gen", str(chk.seed), str(n), prefix, str(NSHARDS)], timeout=3000)
     failures = []
     if rc != 0 or doc is None:
